@@ -70,8 +70,8 @@ def run(chk):
     for fn in (pre, post):
         for p in paths_of(fn, inline_helpers="methods"):
             for ef in p.effects:
-                if ef[0] == "store" and ef[2] in ("input_scale", "output_scale") and isinstance(ef[3], ast.Call) and isinstance(ef[3].func, ast.Name):
-                    r = repo.resolve(mi, ef[3].func.id)
+                if ef[0] == "store" and ef[2] in ("input_scale", "output_scale") and isinstance(_val(ef[3]), ast.Call) and isinstance(_val(ef[3]).func, ast.Name):
+                    r = repo.resolve(mi, _val(ef[3]).func.id)
                     if r is not None and isinstance(r[1], ast.FunctionDef):
                         ema_calls.append((fn, p, ef, r[1]))
     emas = {id(x[3]): x[3] for x in ema_calls}
@@ -80,7 +80,7 @@ def run(chk):
         chk.bad("C12.R2", f"{mi.rel}:{pre.lineno}", "Calibration", "hooks use different update helpers", f"input and output hooks update scales through different helpers {[f.name for f in emas.values()]}", "any history of two or more batches")
     seen_sites = set()
     for fn, p, ef, ema in ema_calls:
-        call = ef[3]
+        call = _val(ef[3])
         b = bind_call(ema, call)
         eparams = positional_params(ema)
         if b is None or len(eparams) < 3:
@@ -185,6 +185,14 @@ def guard_facts(p):
     return f
 
 
+def _val(e):
+    """The stored value without the wrappers that keep its numbers: x.detach(), x.clone(), x.contiguous()."""
+    while isinstance(e, ast.Call) and isinstance(e.func, ast.Attribute) and not e.keywords and (
+            (e.func.attr in ("detach", "clone", "contiguous") and not e.args) or (e.func.attr in ("to", "type") and len(e.args) == 1 and U(e.args[0]).endswith(".dtype"))):
+        e = e.func.value  # `.to(x.dtype)` casts (back) to the dtype of a tensor: the scale the property asks for
+    return e
+
+
 def hook_paths(chk, repo, mi, fn, buf, rule):
     qn = f"Calibration.{fn.name}"
     n_store = 0
@@ -196,7 +204,7 @@ def hook_paths(chk, repo, mi, fn, buf, rule):
                 n_store += 1
                 chk.require("C12.R6", f"{mi.rel}:{ef[4]}", guarded, f"{fn.name}: store to module.{ef[2]} is under isinstance(module, QModuleMixin) and activation_qtype is not None", qn, f"unguarded store to {ef[2]}", "a module without quantized activations (or a non-quantized module) run under calibration")
                 chk.require(rule, f"{mi.rel}:{ef[4]}", ef[2] == buf, f"{fn.name} stores into module.{ef[2]} (expected module.{buf})", qn, f"{fn.name} target buffer", "any calibration: the wrong buffer is updated")
-                v = ef[3]
+                v = _val(ef[3])
                 vt = U(v)
                 if buf == "input_scale":
                     if f.get("isinstance(input[0], QBytesTensor)") is True:
